@@ -405,7 +405,9 @@ def main():
 
         def op():
             holder["doc"] = PSDImage.open(io.BytesIO(data))
+        cpu0 = time.process_time()
         msg["open"], msg["t_open"] = guarded(op)
+        msg["cpu_open"] = time.process_time() - cpu0          # CPU time of PSDImage.open alone (robust against machine load)
         msg["peak_kb"], msg["grow_kb"] = mem_after(before)
         msg["maxrss_kb"] = resource.getrusage(resource.RUSAGE_SELF).ru_maxrss
         doc = holder.get("doc")
